@@ -150,6 +150,12 @@ Definition enabled (st : state) (o : op) : bool :=
   | _ => true
   end.
 
+(* every state a render can be in: any sequence of operations, each succeeding *)
+Inductive reach (limit : Z) : state -> Prop :=
+| reach_init : reach limit init
+| reach_step : forall st o st',
+    reach limit st -> enabled st o = true -> step limit st o = Ok st' -> reach limit st'.
+
 (* number of nested do_eval activations, the root one included *)
 Definition nesting (st : state) : Z := 1 + lenZ (acts st).
 
